@@ -1,8 +1,16 @@
 import PpciVerif.Spec.Relax
 import PpciVerif.Model.Relax
-/-! Lemmas for C13, part 1: the re-indexing `φ` (`Spec.Relax.phi`), `count_holes` with its early `break`,
-hole punching (`Model.Relax.punch`) and the stable sort of the hole lists.  Core Lean only. -/
+import PpciVerif.Proofs.LinkerLayout
+/-! Lemmas for C13 (core Lean only; kept in ONE module so that the thorough-tier `leanchecker` run loads the
+import closure once):
+ 1. the re-indexing `φ`, `count_holes`, hole punching, the stable sort of the hole lists;
+ 2. `_apply_relaxation_holes`: symbols, relocation entries, section data, section addresses of the images;
+ 3. the candidate loop of `do_relaxations`, the registered holes, `do_relaxations` as a whole;
+ 4. two sections of one image: the address map never increases a distance. -/
 namespace Proofs.Relax
+
+/-! # 1. φ, count_holes, hole punching, sort -/
+section RelaxPart
 open Spec.Relax
 open Model.Relax hiding Hole
 
@@ -426,3 +434,956 @@ theorem punch_eq_removeBytes : ∀ (hs : List Hole) (L : Nat) (data X : List Nat
     rw [← List.append_assoc, List.drop_append_of_le_length (by simp only [List.length_append]; omega),
       List.drop_of_length_le (by simp only [List.length_append]; omega)]
     simp
+
+end RelaxPart
+
+/-! # 2. _apply_relaxation_holes -/
+section RelaxObjPart
+open Spec.Relax Model.Linker Proofs.Linker
+open Model.Relax hiding Hole
+
+/-- every per-section hole list (after the sort) is ascending and disjoint -/
+def HolesOK (m : HoleMap) : Prop := ∀ n, HolesFrom 0 (holesOf m n)
+
+/-! ### symbols -/
+
+/-- the relation between a symbol before and after `_apply_relaxation_holes` -/
+def SymShift (m : HoleMap) (s s' : Symbol) : Prop :=
+  match s.sect with
+  | none => s' = s
+  | some n => ∃ v, s.value = some v ∧ removedBefore (holesOf m n) v ≤ v ∧
+      s' = { s with value := some (phi (holesOf m n) v) }
+
+theorem shiftSymbol_spec {m : HoleMap} (hok : HolesOK m) {s s' : Symbol} (h : Model.Relax.shiftSymbol m s = .ok s') :
+    SymShift m s s' := by
+  unfold Model.Relax.shiftSymbol at h
+  unfold SymShift
+  cases hs : s.sect with
+  | none => rw [hs] at h; cases h; rfl
+  | some n =>
+    rw [hs] at h
+    simp only at h ⊢
+    cases hv : s.value with
+    | none => rw [hv] at h; cases h
+    | some v =>
+      rw [hv] at h
+      simp only at h
+      cases hsub : sub? v (countHoles v (holesOf m n)) with
+      | error e => rw [hsub] at h; cases h
+      | ok v' =>
+        rw [hsub] at h
+        cases h
+        obtain ⟨e, hle⟩ := sub_countHoles (hok n) hsub
+        exact ⟨v, rfl, hle, by rw [e]⟩
+
+theorem shiftSymbols_spec {m : HoleMap} (hok : HolesOK m) : ∀ {syms syms' : List Symbol},
+    shiftSymbols m syms = .ok syms' → All2 (SymShift m) syms syms'
+  | [], syms', h => by simp only [shiftSymbols] at h; cases h; exact All2.nil
+  | s :: rest, syms', h => by
+    simp only [shiftSymbols] at h
+    cases h1 : Model.Relax.shiftSymbol m s with
+    | error e => rw [h1] at h; cases h
+    | ok s' =>
+      rw [h1] at h
+      cases h2 : shiftSymbols m rest with
+      | error e => rw [h2] at h; cases h
+      | ok r =>
+        rw [h2] at h
+        cases h
+        exact All2.cons (shiftSymbol_spec hok h1) (shiftSymbols_spec hok h2)
+
+/-! ### relocation entries -/
+
+def RelShift (m : HoleMap) (r r' : Reloc) : Prop :=
+  removedBefore (holesOf m r.sect) r.offset ≤ r.offset ∧
+    r' = { r with offset := phi (holesOf m r.sect) r.offset }
+
+theorem shiftReloc_spec {m : HoleMap} (hok : HolesOK m) {r r' : Reloc} (h : shiftReloc m r = .ok r') :
+    RelShift m r r' := by
+  unfold shiftReloc at h
+  split at h
+  · cases h
+  · cases hsub : sub? r.offset (countHoles r.offset (holesOf m r.sect)) with
+    | error e => rw [hsub] at h; cases h
+    | ok v' =>
+      rw [hsub] at h
+      cases h
+      obtain ⟨e, hle⟩ := sub_countHoles (hok r.sect) hsub
+      exact ⟨hle, by rw [e]⟩
+
+theorem shiftRelocs_spec {m : HoleMap} (hok : HolesOK m) : ∀ {rels rels' : List Reloc},
+    shiftRelocs m rels = .ok rels' → All2 (RelShift m) rels rels'
+  | [], rels', h => by simp only [shiftRelocs] at h; cases h; exact All2.nil
+  | r :: rest, rels', h => by
+    simp only [shiftRelocs] at h
+    cases h1 : shiftReloc m r with
+    | error e => rw [h1] at h; cases h
+    | ok r' =>
+      rw [h1] at h
+      cases h2 : shiftRelocs m rest with
+      | error e => rw [h2] at h; cases h
+      | ok rs =>
+        rw [h2] at h
+        cases h
+        exact All2.cons (shiftReloc_spec hok h1) (shiftRelocs_spec hok h2)
+
+/-! ### section data -/
+
+def SecPunch (m : HoleMap) (s s' : Section) : Prop :=
+  s'.name = s.name ∧ s'.address = s.address ∧ s'.alignment = s.alignment ∧
+    punch s.data (holesOf m s.name) = .ok s'.data
+
+theorem punchSections_spec {m : HoleMap} : ∀ {secs secs' : List Section},
+    punchSections m secs = .ok secs' → All2 (SecPunch m) secs secs'
+  | [], secs', h => by simp only [punchSections] at h; cases h; exact All2.nil
+  | s :: rest, secs', h => by
+    simp only [punchSections] at h
+    cases h1 : punchSection m s with
+    | error e => rw [h1] at h; cases h
+    | ok s' =>
+      rw [h1] at h
+      cases h2 : punchSections m rest with
+      | error e => rw [h2] at h; cases h
+      | ok r =>
+        rw [h2] at h
+        cases h
+        refine All2.cons ?_ (punchSections_spec h2)
+        unfold punchSection at h1
+        cases hp : punch s.data (holesOf m s.name) with
+        | error e => rw [hp] at h1; cases h1
+        | ok d => rw [hp] at h1; cases h1; exact ⟨rfl, rfl, rfl, hp⟩
+
+/-! ### looking sections up by name in related lists -/
+
+theorem getSec_forall₂ {R : Section → Section → Prop} (hR : ∀ s s', R s s' → s'.name = s.name) :
+    ∀ {olds news : List Section}, All2 R olds news → ∀ n,
+      (getSec olds n = none ∧ getSec news n = none) ∨
+      (∃ so sn, getSec olds n = some so ∧ getSec news n = some sn ∧ R so sn)
+  | _, _, .nil, n => Or.inl ⟨rfl, rfl⟩
+  | _, _, .cons (a := so) (b := sn) (as := ro) (bs := rn) h t, n => by
+    rw [getSec_cons, getSec_cons, hR so sn h]
+    by_cases c : so.name = n
+    · simp only [if_pos c]; exact Or.inr ⟨so, sn, rfl, rfl, h⟩
+    · simp only [if_neg c]; exact getSec_forall₂ hR t n
+
+theorem resolve_forall₂ {R : Section → Section → Prop} (hR : ∀ s s', R s s' → s'.name = s.name)
+    {olds news : List Section} (h : All2 R olds news) :
+    ∀ names : List String, All2 R (resolve olds names) (resolve news names)
+  | [] => All2.nil
+  | n :: rest => by
+    have ih := resolve_forall₂ hR h rest
+    unfold resolve at ih ⊢
+    rw [List.filterMap_cons, List.filterMap_cons]
+    rcases getSec_forall₂ hR h n with ⟨a, b⟩ | ⟨so, sn, a, b, r⟩
+    · rw [a, b]; exact ih
+    · rw [a, b]; exact All2.cons r ih
+
+/-! ### the section addresses of one image -/
+
+/-- `section.address -= delta; delta += section_changes[section.name]` along the sections of an image -/
+def shiftRes (m : HoleMap) : Nat → List Section → List Section
+  | _, [] => []
+  | d, s :: r => setAddress (s.address - d) s :: shiftRes m (d + change m s.name) r
+
+/-- none of the subtractions underflows -/
+def ShiftFits (m : HoleMap) : Nat → List Section → Prop
+  | _, [] => True
+  | d, s :: r => d ≤ s.address ∧ ShiftFits m (d + change m s.name) r
+
+theorem shiftImage_spec (m : HoleMap) : ∀ (names : List String) (secs secs' : List Section) (d : Nat),
+    names.Nodup → shiftImage m secs d names = .ok secs' →
+    (∀ n, n ∉ names → getSec secs' n = getSec secs n) ∧
+    resolve secs' names = shiftRes m d (resolve secs names) ∧ ShiftFits m d (resolve secs names) ∧
+    (resolve secs names).length = names.length
+  | [], secs, secs', d, _, h => by
+    simp only [shiftImage] at h; cases h
+    exact ⟨fun _ _ => rfl, rfl, trivial, rfl⟩
+  | n :: rest, secs, secs', d, hnd, h => by
+    rw [List.nodup_cons] at hnd
+    simp only [shiftImage] at h
+    cases hg : getSec secs n with
+    | none => rw [hg] at h; cases h
+    | some sec =>
+      rw [hg] at h
+      simp only at h
+      cases hsub : sub? sec.address d with
+      | error e => rw [hsub] at h; cases h
+      | ok a =>
+        rw [hsub] at h
+        simp only at h
+        have ha : d ≤ sec.address ∧ a = sec.address - d := by
+          unfold sub? at hsub
+          split at hsub
+          · cases hsub; exact ⟨by assumption, rfl⟩
+          · cases hsub
+        obtain ⟨ih1, ih2, ih3, ih4⟩ := shiftImage_spec m rest _ secs' _ hnd.2 h
+        have hname : sec.name = n := getSec_some_name hg
+        have hother : ∀ k, k ≠ n → getSec (updSec secs n (setAddress a)) k = getSec secs k :=
+          fun k hk => getSec_updSec_other secs n k _ (fun s => rfl) hk
+        have hrest : resolve (updSec secs n (setAddress a)) rest = resolve secs rest :=
+          resolve_congr (fun k hk => hother k (fun e => hnd.1 (e ▸ hk)))
+        have hn' : getSec secs' n = some (setAddress a sec) := by
+          rw [ih1 n hnd.1, getSec_updSec_same secs n (setAddress a) (fun s => rfl), hg]; rfl
+        refine ⟨?_, ?_, ?_, ?_⟩
+        · intro k hk
+          have hk1 : k ≠ n := fun e => hk (by simp [e])
+          have hk2 : k ∉ rest := fun e => hk (by simp [e])
+          rw [ih1 k hk2, hother k hk1]
+        · show (n :: rest).filterMap (getSec secs') = _
+          rw [List.filterMap_cons, hn']
+          show _ :: resolve secs' rest = shiftRes m d ((n :: rest).filterMap (getSec secs))
+          rw [List.filterMap_cons, hg]
+          simp only [shiftRes]
+          rw [ih2, hrest, hname, ha.2]
+          rfl
+        · show ShiftFits m d ((n :: rest).filterMap (getSec secs))
+          rw [List.filterMap_cons, hg]
+          simp only [ShiftFits]
+          rw [hrest] at ih3
+          rw [hname]
+          exact ⟨ha.1, ih3⟩
+        · show ((n :: rest).filterMap (getSec secs)).length = _
+          rw [List.filterMap_cons, hg]
+          rw [hrest] at ih4
+          simp only [List.length_cons]
+          exact congrArg (· + 1) ih4
+
+/-- all images: with pairwise different placed names every image is shifted on its own -/
+theorem shiftImages_spec (m : HoleMap) : ∀ (imgs : List Image) (secs secs' : List Section),
+    (imgs.flatMap (·.sections)).Nodup → shiftImages m secs imgs = .ok secs' →
+    (∀ n, n ∉ imgs.flatMap (·.sections) → getSec secs' n = getSec secs n) ∧
+    ∀ img ∈ imgs, resolve secs' img.sections = shiftRes m 0 (resolve secs img.sections) ∧
+      ShiftFits m 0 (resolve secs img.sections) ∧ (resolve secs img.sections).length = img.sections.length
+  | [], secs, secs', _, h => by
+    simp only [shiftImages] at h; cases h
+    exact ⟨fun _ _ => rfl, fun _ hi => by cases hi⟩
+  | img :: rest, secs, secs', hnd, h => by
+    rw [List.flatMap_cons, List.nodup_append] at hnd
+    obtain ⟨hnd1, hnd2, hdisj⟩ := hnd
+    simp only [shiftImages] at h
+    cases h1 : shiftImage m secs 0 img.sections with
+    | error e => rw [h1] at h; cases h
+    | ok secs1 =>
+      rw [h1] at h
+      simp only at h
+      obtain ⟨a1, a2, a3, a4⟩ := shiftImage_spec m img.sections secs secs1 0 hnd1 h1
+      obtain ⟨b1, b2⟩ := shiftImages_spec m rest secs1 secs' hnd2 h
+      refine ⟨?_, ?_⟩
+      · intro n hn
+        rw [List.flatMap_cons, List.mem_append] at hn
+        rw [b1 n (fun e => hn (Or.inr e)), a1 n (fun e => hn (Or.inl e))]
+      · intro i hi
+        rcases List.mem_cons.1 hi with rfl | hi
+        · refine ⟨?_, a3, a4⟩
+          rw [← a2]
+          exact resolve_congr (fun k hk => b1 k (fun e => hdisj k hk k e rfl))
+        · obtain ⟨c1, c2, c3⟩ := b2 i hi
+          have hcong : resolve secs1 i.sections = resolve secs i.sections :=
+            resolve_congr (fun k hk => a1 k (fun e => hdisj k e k (List.mem_flatMap.2 ⟨i, hi, hk⟩) rfl))
+          rw [hcong] at c1 c2 c3
+          exact ⟨c1, c2, c3⟩
+
+/-! ### chains -/
+
+/-- old sections vs. punched sections: same name and address, `change` bytes shorter -/
+def Shorter (m : HoleMap) (so sn : Section) : Prop :=
+  sn.name = so.name ∧ sn.address = so.address ∧ sn.data.length + change m so.name = so.data.length
+
+/-- consecutive sections of an image that did not overlap before do not overlap afterwards -/
+theorem chain_shiftRes (m : HoleMap) : ∀ {olds news : List Section}, All2 (Shorter m) olds news →
+    ∀ (cur D : Nat), Chain cur olds → D ≤ cur → Chain (cur - D) (shiftRes m D news) ∧ ShiftFits m D news
+  | _, _, .nil, _, _, _, _ => ⟨trivial, trivial⟩
+  | _, _, .cons (a := so) (b := sn) (as := ro) (bs := rn) h t, cur, D, hc, hD => by
+    obtain ⟨hn, ha, hl⟩ := h
+    obtain ⟨hc1, hc2⟩ := hc
+    have ih := chain_shiftRes m t (so.address + so.data.length) (D + change m sn.name) hc2 (by rw [hn]; omega)
+    simp only [shiftRes, Chain, ShiftFits, setAddress]
+    refine ⟨⟨by omega, ?_⟩, by omega, ih.2⟩
+    have e : sn.address - D + sn.data.length = so.address + so.data.length - (D + change m sn.name) := by
+      rw [hn]; omega
+    rw [e]
+    exact ih.1
+
+theorem change_eq_totalSize (m : HoleMap) (n : String) : change m n = totalSize (holesOf m n) := by
+  unfold change
+  generalize holesOf m n = hs
+  induction hs with
+  | nil => rfl
+  | cons h rest ih => simp only [List.map_cons, List.sum_cons, totalSize, ih]
+
+theorem shorter_of_punch {m : HoleMap} {so sn : Section} (h : SecPunch m so sn) : Shorter m so sn := by
+  obtain ⟨h1, h2, _, h4⟩ := h
+  refine ⟨h1, h2, ?_⟩
+  rw [change_eq_totalSize]
+  exact punch_length _ _ _ h4
+
+/-! ### everything but the address is left alone by the image loop -/
+
+def SameButAddr (a b : Section) : Prop := b.name = a.name ∧ b.alignment = a.alignment ∧ b.data = a.data
+
+theorem All2.refl' {α : Type} {R : α → α → Prop} (hr : ∀ a, R a a) : ∀ l : List α, All2 R l l
+  | [] => .nil
+  | a :: l => .cons (hr a) (All2.refl' hr l)
+
+theorem All2.trans' {α : Type} {R S T : α → α → Prop} (hrst : ∀ a b c, R a b → S b c → T a c) :
+    ∀ {l₁ l₂ l₃ : List α}, All2 R l₁ l₂ → All2 S l₂ l₃ → All2 T l₁ l₃
+  | _, _, _, .nil, .nil => .nil
+  | _, _, _, .cons h1 t1, .cons h2 t2 => .cons (hrst _ _ _ h1 h2) (All2.trans' hrst t1 t2)
+
+theorem updSec_sameButAddr (n : String) (a : Nat) : ∀ secs : List Section, All2 SameButAddr secs (updSec secs n (setAddress a))
+  | [] => .nil
+  | s :: rest => by
+    rw [updSec_cons]
+    refine .cons ?_ (updSec_sameButAddr n a rest)
+    split
+    · exact ⟨rfl, rfl, rfl⟩
+    · exact ⟨rfl, rfl, rfl⟩
+
+theorem sameButAddr_trans (a b c : Section) (h1 : SameButAddr a b) (h2 : SameButAddr b c) : SameButAddr a c :=
+  ⟨h2.1.trans h1.1, h2.2.1.trans h1.2.1, h2.2.2.trans h1.2.2⟩
+
+theorem shiftImage_same (m : HoleMap) : ∀ (names : List String) (secs secs' : List Section) (d : Nat),
+    shiftImage m secs d names = .ok secs' → All2 SameButAddr secs secs'
+  | [], secs, secs', d, h => by
+    simp only [shiftImage] at h; cases h
+    exact All2.refl' (fun _ => ⟨rfl, rfl, rfl⟩) _
+  | n :: rest, secs, secs', d, h => by
+    simp only [shiftImage] at h
+    cases hg : getSec secs n with
+    | none => rw [hg] at h; cases h
+    | some sec =>
+      rw [hg] at h
+      simp only at h
+      cases hsub : sub? sec.address d with
+      | error e => rw [hsub] at h; cases h
+      | ok a =>
+        rw [hsub] at h
+        simp only at h
+        exact All2.trans' sameButAddr_trans (updSec_sameButAddr n a secs) (shiftImage_same m rest _ secs' _ h)
+
+theorem shiftImages_same (m : HoleMap) : ∀ (imgs : List Image) (secs secs' : List Section),
+    shiftImages m secs imgs = .ok secs' → All2 SameButAddr secs secs'
+  | [], secs, secs', h => by
+    simp only [shiftImages] at h; cases h
+    exact All2.refl' (fun _ => ⟨rfl, rfl, rfl⟩) _
+  | img :: rest, secs, secs', h => by
+    simp only [shiftImages] at h
+    cases h1 : shiftImage m secs 0 img.sections with
+    | error e => rw [h1] at h; cases h
+    | ok secs1 =>
+      rw [h1] at h
+      simp only at h
+      exact All2.trans' sameButAddr_trans (shiftImage_same m _ _ _ _ h1) (shiftImages_same m rest secs1 secs' h)
+
+/-! ### `_apply_relaxation_holes` as a whole -/
+
+theorem bind_ok {α β : Type} {x : Except Model.Relax.Err α} {f : α → Except Model.Relax.Err β} {r : β}
+    (h : (x >>= f) = .ok r) : ∃ a, x = .ok a ∧ f a = .ok r := by
+  cases x with
+  | error e => cases h
+  | ok a => exact ⟨a, rfl, h⟩
+
+/-- section data and names after `_apply_relaxation_holes`, position by position -/
+def SecData (m : HoleMap) (s s' : Section) : Prop :=
+  s'.name = s.name ∧ s'.alignment = s.alignment ∧ punch s.data (holesOf m s.name) = .ok s'.data
+
+theorem applyHoles_spec {m : HoleMap} {o o' : Obj} (hok : HolesOK m) (h : applyHoles m o = .ok o') :
+    All2 (SymShift m) o.symbols o'.symbols ∧ All2 (RelShift m) o.relocs o'.relocs ∧
+    o'.images = o.images ∧ o'.entry = o.entry ∧ All2 (SecData m) o.sections o'.sections ∧
+    ∃ secsP, All2 (SecPunch m) o.sections secsP ∧ shiftImages m secsP o.images = .ok o'.sections := by
+  unfold applyHoles at h
+  obtain ⟨syms, h1, h⟩ := bind_ok h
+  obtain ⟨rels, h2, h⟩ := bind_ok h
+  obtain ⟨secsP, h3, h⟩ := bind_ok h
+  obtain ⟨secs, h4, h⟩ := bind_ok h
+  cases h
+  have hp := punchSections_spec h3
+  refine ⟨shiftSymbols_spec hok h1, shiftRelocs_spec hok h2, rfl, rfl, ?_, secsP, hp, h4⟩
+  exact All2.trans' (fun a b c (hab : SecPunch m a b) (hbc : SameButAddr b c) =>
+    (⟨hbc.1.trans hab.1, hbc.2.1.trans hab.2.2.1, by rw [hbc.2.2]; exact hab.2.2.2⟩ : SecData m a c))
+    hp (shiftImages_same m _ _ _ h4)
+
+/-- the images after relaxation: every image whose sections formed an ascending non-overlapping chain
+    still does, and the addresses are the old ones minus the bytes removed from the sections in front -/
+theorem applyHoles_images {m : HoleMap} {o o' : Obj} (hok : HolesOK m) (h : applyHoles m o = .ok o')
+    (hnd : (o.images.flatMap (·.sections)).Nodup) :
+    ∀ img ∈ o.images, ∃ news, All2 (Shorter m) (resolve o.sections img.sections) news ∧
+      resolve o'.sections img.sections = shiftRes m 0 news ∧
+      (Chain img.address (resolve o.sections img.sections) → Chain img.address (resolve o'.sections img.sections)) := by
+  obtain ⟨_, _, _, _, _, secsP, hp, h4⟩ := applyHoles_spec hok h
+  obtain ⟨_, b2⟩ := shiftImages_spec m o.images secsP o'.sections hnd h4
+  intro img hi
+  obtain ⟨c1, _, _⟩ := b2 img hi
+  have hs : All2 (Shorter m) o.sections secsP := hp.imp (fun _ _ => shorter_of_punch)
+  have hr := resolve_forall₂ (R := Shorter m) (fun s s' h => h.1) hs img.sections
+  refine ⟨resolve secsP img.sections, hr, c1, ?_⟩
+  intro hc
+  rw [c1]
+  have := (chain_shiftRes m hr img.address 0 hc (Nat.zero_le _)).1
+  simpa using this
+
+end RelaxObjPart
+
+/-! # 3. the candidate loop and do_relaxations -/
+section RelaxScanPart
+open Spec.Relax Model.Linker Proofs.Linker
+open Model.Relax hiding Hole
+
+theorem find_all2 {α : Type} {R : α → α → Prop} {p p' : α → Bool} : ∀ {l l' : List α}, All2 R l l' →
+    (∀ a b, R a b → p a = p' b) → ∀ {a}, l.find? p = some a → ∃ b, l'.find? p' = some b ∧ R a b
+  | _, _, .nil, _, _, h => by cases h
+  | _, _, .cons (a := x) (b := y) hxy t, hp, a, h => by
+    rw [List.find?_cons] at h ⊢
+    rw [← hp x y hxy]
+    cases c : p x with
+    | true => rw [c] at h; cases h; exact ⟨y, rfl, hxy⟩
+    | false => rw [c] at h; exact find_all2 t hp h
+
+/-! ### the relocation table -/
+
+/-- every shrinkable relocation type of the table occupies 4 bytes -/
+theorem shrink_size {t : String} {info : RelocInfo} {k : Shrink} (h : relocInfo t = some info)
+    (hk : info.shrink = some k) : info.size = 4 := by
+  unfold relocInfo at h
+  cases hf : rvcTable.find? (fun p => p.1 == t) with
+  | none => rw [hf] at h; cases h
+  | some p =>
+    rw [hf] at h; cases h
+    have hm := List.mem_of_find?_eq_some hf
+    simp only [rvcTable, List.mem_cons, List.mem_nil_iff, or_false] at hm
+    rcases hm with rfl | rfl | rfl | rfl | rfl | rfl | rfl | rfl | rfl | rfl | rfl | rfl | rfl <;>
+      first | rfl | (simp at hk)
+
+def isShrinkable (t : String) : Bool :=
+  match relocInfo t with
+  | some info => info.shrink.isSome
+  | none => false
+
+/-! ### one step of the candidate loop -/
+
+/-- the candidate loop only patches section data -/
+def SameShape (s s' : Section) : Prop :=
+  s'.name = s.name ∧ s'.address = s.address ∧ s'.alignment = s.alignment
+
+theorem patch_length (k : Shrink) (data : List Nat) (h : data.length = 4) : (patch k data).length = 2 := by
+  match data, h with
+  | [_, _, _, _], _ => rfl
+
+theorem updSec_sameShape (n : String) (f : Section → Section) (hf : ∀ s, s.name = n → SameShape s (f s)) :
+    ∀ secs : List Section, All2 SameShape secs (updSec secs n f)
+  | [] => .nil
+  | s :: rest => by
+    rw [updSec_cons]
+    refine .cons ?_ (updSec_sameShape n f hf rest)
+    split
+    · rename_i c; exact hf s c
+    · exact ⟨rfl, rfl, rfl⟩
+
+theorem sameShape_trans (a b c : Section) (h1 : SameShape a b) (h2 : SameShape b c) : SameShape a c :=
+  ⟨h2.1.trans h1.1, h2.2.1.trans h1.2.1, h2.2.2.trans h1.2.2⟩
+
+theorem assert_ok {c : Bool} (h : Model.Relax.assert c = .ok ()) : c = true := by
+  unfold Model.Relax.assert at h
+  split at h
+  · assumption
+  · cases h
+
+/-- what a successful `scanStep` did -/
+theorem scanStep_spec {o : Obj} {secs secs' : List Section} {r : Reloc} {c : Option Cand}
+    (h : scanStep o secs r = .ok (secs', c)) :
+    (c = none ∧ secs' = secs) ∨
+    (∃ k sec S, c = some { hole := (r.offset + 2, 2), reloc := r } ∧ isShrinkable r.typ = true ∧
+      relocInfo r.typ = some ⟨4, some k⟩ ∧ getSec secs r.sect = some sec ∧
+      liftL (getSymbolIdValue { o with sections := secs } r.symbolId) = .ok S ∧
+      canShrink S (sec.address + r.offset) = .ok true ∧
+      ((sec.data.drop r.offset).take 4).length = 4 ∧
+      secs' = updSec secs r.sect (fun s => { s with data := splice s.data r.offset (patch k ((sec.data.drop r.offset).take 4)) })) := by
+  unfold scanStep at h
+  obtain ⟨S, hS, h⟩ := bind_ok h
+  cases hg : getSec secs r.sect with
+  | none => rw [hg] at h; cases h
+  | some sec =>
+    rw [hg] at h
+    simp only at h
+    cases hi : relocInfo r.typ with
+    | none => rw [hi] at h; cases h
+    | some info =>
+      rw [hi] at h
+      simp only at h
+      cases hk : info.shrink with
+      | none => rw [hk] at h; cases h; exact Or.inl ⟨rfl, rfl⟩
+      | some k =>
+        rw [hk] at h
+        simp only at h
+        obtain ⟨can, hc, h⟩ := bind_ok h
+        cases can with
+        | false => cases h; exact Or.inl ⟨rfl, rfl⟩
+        | true =>
+          have hsz : info.size = 4 := shrink_size hi hk
+          simp only [Bool.not_true, Bool.false_eq_true, if_false] at h
+          obtain ⟨_, a1, h⟩ := bind_ok h
+          obtain ⟨_, a2, h⟩ := bind_ok h
+          obtain ⟨_, a3, h⟩ := bind_ok h
+          have l4 : ((sec.data.drop r.offset).take 4).length = 4 := by
+            have := assert_ok a1
+            rw [hsz] at this
+            simpa using this
+          rw [hsz] at h
+          have lp := patch_length k _ l4
+          rw [lp] at h
+          cases h
+          refine Or.inr ⟨k, sec, S, rfl, ?_, ?_, rfl, hS, hc, l4, rfl⟩
+          · unfold isShrinkable; rw [hi]; simp [hk]
+          · cases info with | mk sz sh => simp only at hsz hk; rw [hsz, hk]
+
+theorem scanStep_shape {o : Obj} {secs secs' : List Section} {r : Reloc} {c : Option Cand}
+    (h : scanStep o secs r = .ok (secs', c)) : All2 SameShape secs secs' := by
+  rcases scanStep_spec h with ⟨_, rfl⟩ | ⟨k, sec, S, _, _, _, hg, _, _, l4, rfl⟩
+  · exact All2.refl' (fun _ => ⟨rfl, rfl, rfl⟩) _
+  · apply updSec_sameShape
+    intro s _
+    exact ⟨rfl, rfl, rfl⟩
+
+/-! ### the whole loop -/
+
+/-- what `lst` holds after the loop: one entry per accepted relocation, in relocation order, with the
+    hole right behind the two bytes that stay -/
+def CandOK (c : Cand) : Prop := c.hole = (c.reloc.offset + 2, 2) ∧ isShrinkable c.reloc.typ = true
+
+theorem scan_spec {o : Obj} : ∀ {rels : List Reloc} {secs secs' : List Section} {cs : List Cand},
+    scan o secs rels = .ok (secs', cs) →
+    All2 SameShape secs secs' ∧ (cs.map (·.reloc)).Sublist rels ∧ ∀ c ∈ cs, CandOK c
+  | [], secs, secs', cs, h => by
+    simp only [scan] at h; cases h
+    exact ⟨All2.refl' (fun _ => ⟨rfl, rfl, rfl⟩) _, List.Sublist.refl _, fun _ hc => by cases hc⟩
+  | r :: rest, secs, secs', cs, h => by
+    simp only [scan] at h
+    cases h1 : scanStep o secs r with
+    | error e => rw [h1] at h; cases h
+    | ok p =>
+      obtain ⟨secs1, c⟩ := p
+      rw [h1] at h
+      simp only at h
+      cases h2 : scan o secs1 rest with
+      | error e => rw [h2] at h; cases h
+      | ok q =>
+        obtain ⟨secs2, cs2⟩ := q
+        rw [h2] at h
+        cases h
+        obtain ⟨i1, i2, i3⟩ := scan_spec h2
+        refine ⟨All2.trans' sameShape_trans (scanStep_shape h1) i1, ?_, ?_⟩
+        · rcases scanStep_spec h1 with ⟨rfl, _⟩ | ⟨k, sec, S, rfl, _⟩
+          · exact List.Sublist.cons _ i2
+          · exact List.Sublist.cons_cons _ i2
+        · intro c' hc'
+          rcases scanStep_spec h1 with ⟨rfl, _⟩ | ⟨k, sec, S, rfl, hsh, _⟩
+          · exact i3 c' hc'
+          · rcases List.mem_cons.1 hc' with rfl | hc'
+            · exact ⟨rfl, hsh⟩
+            · exact i3 c' hc'
+
+/-! ### the registered holes are ascending and disjoint when the shrinkable sites do not overlap -/
+
+/-- the shrinkable relocation sites of one section are pairwise disjoint (4 bytes each) -/
+def SitesSeparated (rels : List Reloc) : Prop :=
+  rels.Pairwise (fun r₁ r₂ => r₁.sect = r₂.sect → isShrinkable r₁.typ = true → isShrinkable r₂.typ = true →
+    r₁.offset + 4 ≤ r₂.offset ∨ r₂.offset + 4 ≤ r₁.offset)
+
+theorem holesOK_of_cands {rels : List Reloc} {cs : List Cand} (hsep : SitesSeparated rels)
+    (hsub : (cs.map (·.reloc)).Sublist rels) (hc : ∀ c ∈ cs, CandOK c) :
+    HolesOK (cs.map (fun c => (c.reloc.sect, c.hole))) := by
+  intro n
+  unfold holesOf
+  apply holesFrom_sortHoles
+  · -- separated
+    have h1 : (cs.map (·.reloc)).Pairwise _ := hsep.sublist hsub
+    rw [List.pairwise_map] at h1
+    have h2 : cs.Pairwise (fun a b => a.reloc.sect = b.reloc.sect →
+        (a.hole.1 + a.hole.2 ≤ b.hole.1 ∨ b.hole.1 + b.hole.2 ≤ a.hole.1)) := by
+      refine h1.imp_of_mem ?_
+      intro a b ha hb hab hs
+      obtain ⟨ea, sa⟩ := hc a ha
+      obtain ⟨eb, sb⟩ := hc b hb
+      have := hab hs sa sb
+      rw [ea, eb]
+      simp only
+      omega
+    rw [List.filter_map, List.map_map]
+    rw [List.pairwise_map]
+    refine (h2.filter _).imp_of_mem ?_
+    intro a b ha hb hab
+    have ha' := (List.mem_filter.1 ha).2
+    have hb' := (List.mem_filter.1 hb).2
+    simp only [Function.comp, beq_iff_eq] at ha' hb'
+    exact hab (ha'.trans hb'.symm)
+  · intro h hh
+    rw [List.mem_map] at hh
+    obtain ⟨p, hp, rfl⟩ := hh
+    have hp' := (List.mem_filter.1 hp).1
+    rw [List.mem_map] at hp'
+    obtain ⟨c, hcm, rfl⟩ := hp'
+    rw [(hc c hcm).1]
+    exact Nat.zero_lt_two
+
+/-! ### `do_relaxations` as a whole -/
+
+theorem doRelaxations_inv {o o' : Obj} {m : HoleMap} (h : doRelaxations o = .ok (o', m)) :
+    ∃ secs cs, scan o o.sections o.relocs = .ok (secs, cs) ∧ m = (if cs.isEmpty then [] else cs.map (fun c => (c.reloc.sect, c.hole))) ∧
+      ((cs = [] ∧ o' = { o with sections := secs }) ∨
+       (cs ≠ [] ∧ ∃ rels, replaceRelocs o.relocs cs = .ok rels ∧
+          applyHoles m { o with sections := secs, relocs := rels } = .ok o')) := by
+  unfold doRelaxations at h
+  obtain ⟨⟨secs, cs⟩, h1, h⟩ := bind_ok h
+  refine ⟨secs, cs, h1, ?_⟩
+  simp only at h
+  cases hc : cs.isEmpty with
+  | true =>
+    rw [hc] at h
+    simp only [if_true] at h
+    cases h
+    have : cs = [] := List.isEmpty_iff.1 hc
+    exact ⟨by simp, Or.inl ⟨this, rfl⟩⟩
+  | false =>
+    rw [hc] at h
+    simp only [Bool.false_eq_true, if_false] at h
+    obtain ⟨rels, h2, h⟩ := bind_ok h
+    obtain ⟨o1, h3, h⟩ := bind_ok h
+    cases h
+    have hne : cs ≠ [] := fun e => by rw [e] at hc; cases hc
+    exact ⟨by simp, Or.inr ⟨hne, rels, h2, by simpa using h3⟩⟩
+
+/-- the holes `do_relaxations` registers are ascending and disjoint per section as soon as the shrinkable
+    relocation sites do not overlap -/
+theorem doRelaxations_holesOK {o o' : Obj} {m : HoleMap} (h : doRelaxations o = .ok (o', m))
+    (hsep : SitesSeparated o.relocs) : HolesOK m := by
+  obtain ⟨secs, cs, h1, hm, _⟩ := doRelaxations_inv h
+  obtain ⟨_, hsub, hc⟩ := scan_spec h1
+  rw [hm]
+  split
+  · intro n; exact trivial
+  · exact holesOK_of_cands hsep hsub hc
+
+/-- `HolesOK` only has to be checked for the sections that have a hole (decidable) -/
+theorem holesOK_of_names {m : HoleMap} (h : ∀ n ∈ m.map (·.1), HolesFrom 0 (holesOf m n)) : HolesOK m := by
+  intro n
+  by_cases c : n ∈ m.map (·.1)
+  · exact h n c
+  · have : m.filter (fun p => p.1 == n) = [] := by
+      rw [List.filter_eq_nil_iff]
+      intro p hp hpn
+      exact c (List.mem_map.2 ⟨p, hp, by simpa using hpn⟩)
+    unfold holesOf
+    rw [this]
+    exact trivial
+
+/-! ### the relocation entries after the replacement -/
+
+/-- a relocation entry without its type -/
+def relKey (r : Reloc) : Nat × String × Nat × Int := (r.symbolId, r.sect, r.offset, r.addend)
+
+theorem removeFirst_perm {r : Reloc} : ∀ {l l' : List Reloc}, removeFirst r l = .ok l' → l.Perm (r :: l')
+  | [], _, h => by cases h
+  | x :: rest, l', h => by
+    simp only [removeFirst] at h
+    split at h
+    · rename_i c
+      cases h
+      have : x = r := by simpa using c
+      rw [this]
+    · cases hr : removeFirst r rest with
+      | error e => rw [hr] at h; cases h
+      | ok rest' =>
+        rw [hr] at h; cases h
+        exact ((removeFirst_perm hr).cons x).trans (List.Perm.swap r x rest')
+
+/-- the replacement keeps every entry's symbol, section, offset and addend (as a multiset): only types
+    change and the shrunk entries move to the end -/
+theorem replaceRelocs_keys : ∀ {cs : List Cand} {rels rels' : List Reloc}, replaceRelocs rels cs = .ok rels' →
+    (rels'.map relKey).Perm (rels.map relKey)
+  | [], rels, rels', h => by simp only [replaceRelocs] at h; cases h; exact List.Perm.refl _
+  | c :: cs, rels, rels', h => by
+    simp only [replaceRelocs] at h
+    cases h1 : removeFirst c.reloc rels with
+    | error e => rw [h1] at h; cases h
+    | ok rels1 =>
+      rw [h1] at h
+      simp only at h
+      split at h
+      · cases h
+      · have ih := replaceRelocs_keys h
+        refine ih.trans ?_
+        have p1 := (removeFirst_perm h1).map relKey
+        rw [List.map_append, List.map_cons, List.map_nil]
+        refine List.Perm.trans ?_ p1.symm
+        rw [List.map_cons]
+        have : relKey { c.reloc with typ := shrunkType } = relKey c.reloc := rfl
+        rw [this]
+        exact List.perm_append_comm.trans (List.Perm.refl _)
+
+/-! ### the candidate loop touches only the two bytes it keeps of every accepted jump -/
+
+theorem splice_length {data new : List Nat} {off : Nat} (h : off + new.length ≤ data.length) :
+    (splice data off new).length = data.length := by
+  unfold splice
+  simp only [List.length_append, List.length_take, List.length_drop]
+  omega
+
+theorem splice_get {data new : List Nat} {off i : Nat} (h : off + new.length ≤ data.length)
+    (hi : i < off ∨ off + new.length ≤ i) : (splice data off new)[i]? = data[i]? := by
+  unfold splice
+  rcases hi with hi | hi
+  · rw [List.getElem?_append_left (by simp only [List.length_append, List.length_take]; omega),
+      List.getElem?_append_left (by simp only [List.length_take]; omega), List.getElem?_take]
+    simp [hi]
+  · rw [List.getElem?_append_right (by simp only [List.length_append, List.length_take]; omega)]
+    simp only [List.length_append, List.length_take, List.getElem?_drop]
+    congr 1
+    omega
+
+/-- what the candidates `cs` may have changed in a section -/
+def Patched (cs : List Cand) (s s' : Section) : Prop :=
+  SameShape s s' ∧ s'.data.length = s.data.length ∧
+  ∀ i, (∀ c ∈ cs, c.reloc.sect = s.name → i < c.reloc.offset ∨ c.reloc.offset + 2 ≤ i) → s'.data[i]? = s.data[i]?
+
+theorem getSec_of_mem_nodup : ∀ {secs : List Section} {s : Section}, (secs.map (·.name)).Nodup → s ∈ secs →
+    getSec secs s.name = some s
+  | [], _, _, h => by cases h
+  | a :: rest, s, hnd, hs => by
+    rw [List.map_cons, List.nodup_cons] at hnd
+    rw [getSec_cons]
+    rcases List.mem_cons.1 hs with rfl | hs
+    · simp
+    · have : a.name ≠ s.name := fun e => hnd.1 (e ▸ List.mem_map.2 ⟨s, hs, rfl⟩)
+      simp only [if_neg this]
+      exact getSec_of_mem_nodup hnd.2 hs
+
+theorem all2_map_mem {α : Type} {R : α → α → Prop} (f : α → α) : ∀ (l : List α), (∀ a ∈ l, R a (f a)) → All2 R l (l.map f)
+  | [], _ => .nil
+  | a :: rest, h => .cons (h a (by simp)) (all2_map_mem f rest (fun x hx => h x (by simp [hx])))
+
+theorem all2_names {secs secs' : List Section} (h : All2 SameShape secs secs') :
+    secs'.map (·.name) = secs.map (·.name) := by
+  induction h with
+  | nil => rfl
+  | cons hr _ ih => simp only [List.map_cons, ih, hr.1]
+
+def candList : Option Cand → List Cand
+  | some x => [x]
+  | none => []
+
+theorem scanStep_data {o : Obj} {secs secs' : List Section} {r : Reloc} {c : Option Cand}
+    (hnd : (secs.map (·.name)).Nodup) (h : scanStep o secs r = .ok (secs', c)) :
+    All2 (Patched (candList c)) secs secs' := by
+  rcases scanStep_spec h with ⟨rfl, rfl⟩ | ⟨k, sec, S, rfl, _, _, hg, _, _, l4, rfl⟩
+  · exact All2.refl' (fun _ => ⟨⟨rfl, rfl, rfl⟩, rfl, fun _ _ => rfl⟩) _
+  · have hoff : r.offset + 4 ≤ sec.data.length := by
+      simp only [List.length_take, List.length_drop] at l4
+      omega
+    unfold updSec
+    apply all2_map_mem
+    intro s hs
+    by_cases hb : (s.name == r.sect) = true
+    · rw [if_pos hb]
+      have hsn : s.name = r.sect := by simpa using hb
+      have : getSec secs r.sect = some s := hsn ▸ getSec_of_mem_nodup hnd hs
+      rw [hg] at this
+      cases this
+      have lp := patch_length k _ l4
+      refine ⟨⟨rfl, rfl, rfl⟩, splice_length (by rw [lp]; omega), ?_⟩
+      intro i hi
+      have := hi { hole := (r.offset + 2, 2), reloc := r } (by simp [candList]) hsn.symm
+      exact splice_get (by rw [lp]; omega) (by rw [lp]; exact this)
+    · rw [if_neg hb]
+      exact ⟨⟨rfl, rfl, rfl⟩, rfl, fun _ _ => rfl⟩
+
+theorem patched_trans {cs₁ cs₂ : List Cand} (a b c : Section) (h1 : Patched cs₁ a b) (h2 : Patched cs₂ b c) :
+    Patched (cs₁ ++ cs₂) a c := by
+  obtain ⟨s1, l1, d1⟩ := h1
+  obtain ⟨s2, l2, d2⟩ := h2
+  refine ⟨sameShape_trans a b c s1 s2, l2.trans l1, ?_⟩
+  intro i hi
+  rw [d2 i (fun x hx hn => hi x (List.mem_append.2 (Or.inr hx)) (hn.trans s1.1)),
+    d1 i (fun x hx hn => hi x (List.mem_append.2 (Or.inl hx)) hn)]
+
+/-- after the candidate loop every section has its old length and its old bytes, except for the first two
+    bytes of every accepted jump (section names pairwise different) -/
+theorem scan_data {o : Obj} : ∀ {rels : List Reloc} {secs secs' : List Section} {cs : List Cand},
+    (secs.map (·.name)).Nodup → scan o secs rels = .ok (secs', cs) → All2 (Patched cs) secs secs'
+  | [], secs, secs', cs, _, h => by
+    simp only [scan] at h; cases h
+    exact All2.refl' (fun _ => ⟨⟨rfl, rfl, rfl⟩, rfl, fun _ _ => rfl⟩) _
+  | r :: rest, secs, secs', cs, hnd, h => by
+    simp only [scan] at h
+    cases h1 : scanStep o secs r with
+    | error e => rw [h1] at h; cases h
+    | ok p =>
+      obtain ⟨secs1, c⟩ := p
+      rw [h1] at h
+      simp only at h
+      cases h2 : scan o secs1 rest with
+      | error e => rw [h2] at h; cases h
+      | ok q =>
+        obtain ⟨secs2, cs2⟩ := q
+        rw [h2] at h
+        cases h
+        have hnd1 : (secs1.map (·.name)).Nodup := by rw [all2_names (scanStep_shape h1)]; exact hnd
+        have key := All2.trans' patched_trans (scanStep_data hnd h1) (scan_data hnd1 h2)
+        cases c <;> exact key
+
+end RelaxScanPart
+
+/-! # 4. two sections of one image -/
+section RelaxRangePart
+open Spec.Relax Model.Linker Proofs.Linker
+open Model.Relax hiding Hole
+
+/-- bytes removed in front of the `i`-th section of an image (`delta` when the loop reaches it) -/
+def deltaAt (m : HoleMap) : Nat → List Section → Nat → Nat
+  | d, [], _ => d
+  | d, _ :: _, 0 => d
+  | d, s :: r, i + 1 => deltaAt m (d + change m s.name) r i
+
+theorem shiftRes_get (m : HoleMap) : ∀ (news : List Section) (d i : Nat) (s : Section), news[i]? = some s →
+    (shiftRes m d news)[i]? = some (setAddress (s.address - deltaAt m d news i) s)
+  | [], _, _, _, h => by cases h
+  | a :: r, d, 0, s, h => by
+    simp only [List.getElem?_cons_zero, Option.some.injEq] at h
+    subst h
+    simp [shiftRes, deltaAt]
+  | a :: r, d, i + 1, s, h => by
+    simp only [List.getElem?_cons_succ] at h
+    simp only [shiftRes, List.getElem?_cons_succ, deltaAt]
+    exact shiftRes_get m r _ i s h
+
+theorem deltaAt_ge (m : HoleMap) : ∀ (news : List Section) (d i : Nat), d ≤ deltaAt m d news i
+  | [], _, _ => by simp [deltaAt]
+  | _ :: _, _, 0 => by simp [deltaAt]
+  | a :: r, d, i + 1 => by
+    simp only [deltaAt]
+    have := deltaAt_ge m r (d + change m a.name) i
+    omega
+
+/-- a later section has lost at least the holes of every earlier one -/
+theorem deltaAt_mono (m : HoleMap) : ∀ (news : List Section) (d i j : Nat) (s : Section), i < j → news[i]? = some s →
+    deltaAt m d news i + change m s.name ≤ deltaAt m d news j
+  | [], _, _, _, _, _, h => by cases h
+  | a :: r, d, 0, j + 1, s, _, h => by
+    simp only [List.getElem?_cons_zero, Option.some.injEq] at h
+    subst h
+    simp only [deltaAt]
+    exact deltaAt_ge m r _ j
+  | a :: r, d, i + 1, j + 1, s, hij, h => by
+    simp only [List.getElem?_cons_succ] at h
+    simp only [deltaAt]
+    exact deltaAt_mono m r _ i j s (by omega) h
+
+theorem shiftFits_get (m : HoleMap) : ∀ (news : List Section) (d i : Nat) (s : Section), ShiftFits m d news →
+    news[i]? = some s → deltaAt m d news i ≤ s.address
+  | [], _, _, _, _, h => by cases h
+  | a :: r, d, 0, s, hf, h => by
+    simp only [List.getElem?_cons_zero, Option.some.injEq] at h
+    subst h
+    exact hf.1
+  | a :: r, d, i + 1, s, hf, h => by
+    simp only [List.getElem?_cons_succ] at h
+    simp only [deltaAt]
+    exact shiftFits_get m r _ i s hf.2 h
+
+theorem all2_get {α : Type} {R : α → α → Prop} : ∀ {l l' : List α}, All2 R l l' → ∀ (i : Nat) (a : α),
+    l[i]? = some a → ∃ b, l'[i]? = some b ∧ R a b
+  | _, _, .nil, _, _, h => by cases h
+  | _, _, .cons (a := x) (b := y) hxy t, 0, a, h => by
+    simp only [List.getElem?_cons_zero, Option.some.injEq] at h
+    subst h
+    exact ⟨y, by simp, hxy⟩
+  | _, _, .cons (a := x) (b := y) hxy t, i + 1, a, h => by
+    simp only [List.getElem?_cons_succ] at h ⊢
+    exact all2_get t i a h
+
+theorem pairwise_get {α : Type} {R : α → α → Prop} : ∀ {l : List α}, l.Pairwise R → ∀ (i j : Nat) (a b : α),
+    i < j → l[i]? = some a → l[j]? = some b → R a b
+  | [], _, _, _, _, _, _, h, _ => by cases h
+  | x :: r, hp, 0, j + 1, a, b, _, ha, hb => by
+    simp only [List.getElem?_cons_zero, Option.some.injEq] at ha
+    simp only [List.getElem?_cons_succ] at hb
+    subst ha
+    exact (List.pairwise_cons.1 hp).1 b (List.mem_of_getElem? hb)
+  | x :: r, hp, i + 1, j + 1, a, b, hij, ha, hb => by
+    simp only [List.getElem?_cons_succ] at ha hb
+    exact pairwise_get (List.pairwise_cons.1 hp).2 i j a b (by omega) ha hb
+
+theorem removedBefore_le_total (hs : List Hole) (o : Nat) : removedBefore hs o ≤ totalSize hs := by
+  induction hs with
+  | nil => exact Nat.le_refl _
+  | cons h rest ih =>
+    simp only [removedBefore, totalSize]
+    split <;> omega
+
+/-- `φ` of an offset inside the section is inside the shrunk section -/
+theorem phi_le_newlen {hs : List Hole} {len p : Nat} (hf : HolesFrom 0 hs) (hw : holesWithin hs len) (hp : p ≤ len) :
+    phi hs p + totalSize hs ≤ len := by
+  have hin : strictlyInside hs len = false := by
+    unfold strictlyInside
+    rw [List.any_eq_false]
+    intro h hh
+    have := hw h hh
+    simp only [decide_eq_true_eq]
+    omega
+  have m1 := phi_mono hf hin hp
+  have hall : removedBefore hs len = totalSize hs := by
+    clear m1 hin hp hf
+    induction hs with
+    | nil => rfl
+    | cons g rest ih =>
+      have hg := hw g (by simp)
+      simp only [removedBefore, totalSize]
+      rw [ih (fun x hx => hw x (by simp [hx]))]
+      split <;> omega
+  have := removedBefore_le_self hf hin
+  unfold phi at m1 ⊢
+  omega
+
+/-- TWO SECTIONS OF ONE IMAGE.  `olds` are the sections of an image before relaxation (an ascending
+    non-overlapping chain), `news` the same sections after hole punching; `sn₁`, `sn₂` are sections `i < j`
+    of the image after the address shift.  For an offset `p` in the earlier and `t` in the later section
+    (neither strictly inside a hole) the address map keeps the order and never increases the distance. -/
+theorem two_sections_distance (m : HoleMap) (hok : HolesOK m) {olds news : List Section} {cur : Nat}
+    (hrel : All2 (Shorter m) olds news) (hc : Chain cur olds)
+    {i j : Nat} (hij : i < j) {so₁ so₂ sn₁ sn₂ : Section}
+    (ho₁ : olds[i]? = some so₁) (ho₂ : olds[j]? = some so₂)
+    (hn₁ : (shiftRes m 0 news)[i]? = some sn₁) (hn₂ : (shiftRes m 0 news)[j]? = some sn₂)
+    (hw₁ : holesWithin (holesOf m so₁.name) so₁.data.length)
+    {p t : Nat} (hp : p ≤ so₁.data.length)
+    (hsp : strictlyInside (holesOf m so₁.name) p = false) (hst : strictlyInside (holesOf m so₂.name) t = false) :
+    so₁.address + p ≤ so₂.address + t ∧
+    sn₁.address + phi (holesOf m so₁.name) p ≤ sn₂.address + phi (holesOf m so₂.name) t ∧
+    (sn₂.address + phi (holesOf m so₂.name) t) - (sn₁.address + phi (holesOf m so₁.name) p)
+      ≤ (so₂.address + t) - (so₁.address + p) := by
+  obtain ⟨q₁, hq₁, r₁⟩ := all2_get hrel i so₁ ho₁
+  obtain ⟨q₂, hq₂, r₂⟩ := all2_get hrel j so₂ ho₂
+  have e₁ := shiftRes_get m news 0 i q₁ hq₁
+  have e₂ := shiftRes_get m news 0 j q₂ hq₂
+  rw [hn₁] at e₁; rw [hn₂] at e₂
+  simp only [Option.some.injEq] at e₁ e₂
+  obtain ⟨cs, fits⟩ := chain_shiftRes m hrel cur 0 hc (Nat.zero_le _)
+  have f₁ := shiftFits_get m news 0 i q₁ fits hq₁
+  have f₂ := shiftFits_get m news 0 j q₂ fits hq₂
+  have dm := deltaAt_mono m news 0 i j q₁ hij hq₁
+  have oldpw := pairwise_get (chain_pairwise olds cur hc) i j so₁ so₂ hij ho₁ ho₂
+  have newpw := pairwise_get (chain_pairwise _ _ cs) i j sn₁ sn₂ hij hn₁ hn₂
+  obtain ⟨n₁, a₁, l₁⟩ := r₁
+  obtain ⟨n₂, a₂, l₂⟩ := r₂
+  have hc₁ : change m so₁.name = totalSize (holesOf m so₁.name) := change_eq_totalSize m so₁.name
+  have hphi := phi_le_newlen (hok so₁.name) hw₁ hp
+  have hrb₁ := removedBefore_le_total (holesOf m so₁.name) p
+  have hrbp := removedBefore_le_self (hok so₁.name) hsp
+  have hrbt := removedBefore_le_self (hok so₂.name) hst
+  subst e₁ e₂
+  simp only [setAddress] at newpw ⊢
+  rw [n₁] at dm
+  unfold phi at hphi ⊢
+  refine ⟨by omega, by omega, by omega⟩
+
+end RelaxRangePart
+
+end Proofs.Relax
